@@ -1,4 +1,6 @@
 """Checker entry points callable by name from engine.family_worker."""
+import os
+
 from . import engine
 
 
@@ -643,6 +645,14 @@ def _same_num(a, b):
 
 
 def wasm_agree(prop, case, agg, units=None):
+    """Plain and - except for the big enumerated W programs, whose optimised form family W covers in the thorough tier - optimised
+    compilation (the constant-cast folding creates constants the plain pipeline never hands to the emitter)."""
+    _wasm_agree1(prop, case, agg, units, False)
+    if "src" in case or case["fam"] != "W" or os.environ.get("NSLMC_TIER") == "thorough":
+        _wasm_agree1(prop, case, agg, units, True)
+
+
+def _wasm_agree1(prop, case, agg, units=None, optimize=False):
     """C06: VM == wasmtime == reference wasm interpreter, or refusal (refusal is a violation only inside the subset)."""
     from . import lang
     from .engine import case_prog, short, vm_outcome
@@ -650,13 +660,15 @@ def wasm_agree(prop, case, agg, units=None):
     from .refsem import Unspec
 
     units = case["units"] if units is None else units
+    opts = {"wasm": True, "optimize": True} if optimize else {"wasm": True}
+    otag = "|optimize" if optimize else ""
     src = case["src"] if "src" in case else lang.render(case_prog(case, units), case.get("mode", "min"))
     inside = case["fam"] == "W" and "src" not in case
-    res = compile_src(src, {"wasm": True})
+    res = compile_src(src, opts)
     if res.status != "ok" and len(units) > 1:
         h = len(units) // 2
-        wasm_agree(prop, case, agg, units[:h])
-        wasm_agree(prop, case, agg, units[h:])
+        _wasm_agree1(prop, case, agg, units[:h], optimize)
+        _wasm_agree1(prop, case, agg, units[h:], optimize)
         return
     desc = (units[0].get("desc") if len(units) == 1 else None) or case["desc"]
     agg.evals += 1
@@ -667,7 +679,7 @@ def wasm_agree(prop, case, agg, units=None):
             return
         if inside:
             agg.nontrivial += 1
-            agg.fail({"key": f"{prop}|{case['fam']}|refused-inside-subset|{res.exc}@{res.where}|{desc}", "source": src, "options": {"wasm": True},
+            agg.fail({"key": f"{prop}|{case['fam']}|refused-inside-subset|{res.exc}@{res.where}|{desc}{otag}", "source": src, "options": dict(opts),
                       "expected": "a module that agrees with the VM (scalar straight-line subset)", "observed": f"{res.cls()} {res.msg or ''}"})
         return
     data = res.wasm_bytes
@@ -757,8 +769,8 @@ def wasm_agree(prop, case, agg, units=None):
                 if bad:
                     break
             if bad:
-                agg.fail({"key": f"{prop}|{case['fam']}|{bad[0]}|{ud}", "source": src if len(units) == 1 else lang.render(case_prog(case, [u]), case.get("mode", "min")),
-                          "options": {"wasm": True}, "entry": u["entry"], "inputs": {"args": args, "globals": globs},
+                agg.fail({"key": f"{prop}|{case['fam']}|{bad[0]}|{ud}{otag}", "source": src if len(units) == 1 else lang.render(case_prog(case, [u]), case.get("mode", "min")),
+                          "options": dict(opts), "entry": u["entry"], "inputs": {"args": args, "globals": globs},
                           "expected": short(want), "observed": f"{bad[1]}: {bad[2]}"})
                 break
     if len(agg.samples) < 2:
@@ -784,6 +796,14 @@ def replay_wasm_agree(rec, verbose=True):
 
 
 def wasm_valid(prop, case, agg, units=None):
+    """Plain and - except for the big enumerated W programs, whose optimised form family W covers in the thorough tier - optimised
+    compilation (the constant-cast folding creates constants the plain pipeline never hands to the emitter)."""
+    _wasm_valid1(prop, case, agg, units, False)
+    if "src" in case or case["fam"] != "W" or os.environ.get("NSLMC_TIER") == "thorough":
+        _wasm_valid1(prop, case, agg, units, True)
+
+
+def _wasm_valid1(prop, case, agg, units=None, optimize=False):
     """C07: every emitted module decodes and validates as WebAssembly 1.0 (independent validator, wasmtime as cross-check)."""
     import wasmtime
     from . import lang, wasmref
@@ -791,12 +811,14 @@ def wasm_valid(prop, case, agg, units=None):
     from .nslapi import compile_src
 
     units = case["units"] if units is None else units
+    opts = {"wasm": True, "optimize": True} if optimize else {"wasm": True}
+    otag = "|optimize" if optimize else ""
     src = case["src"] if "src" in case else lang.render(case_prog(case, units), case.get("mode", "min"))
-    res = compile_src(src, {"wasm": True})
+    res = compile_src(src, opts)
     if res.status != "ok" and len(units) > 1:
         h = len(units) // 2
-        wasm_valid(prop, case, agg, units[:h])
-        wasm_valid(prop, case, agg, units[h:])
+        _wasm_valid1(prop, case, agg, units[:h], optimize)
+        _wasm_valid1(prop, case, agg, units[h:], optimize)
         return
     agg.evals += 1
     desc = (units[0].get("desc") if len(units) == 1 else None) or case["desc"]
@@ -824,7 +846,7 @@ def wasm_valid(prop, case, agg, units=None):
         verdict = ("validator-disagreement", "wasmtime-rejects", wt)
     if verdict is not None:
         nfun = src.count("function ")
-        agg.fail({"key": f"{prop}|{case['fam']}|{verdict[0]}|{verdict[1]}", "source": src, "options": {"wasm": True},
+        agg.fail({"key": f"{prop}|{case['fam']}|{verdict[0]}|{verdict[1]}{otag}", "source": src, "options": dict(opts),
                   "expected": "a valid WebAssembly 1.0 binary", "observed": f"{verdict[2]} | wasmtime: {wt or 'accepts'} | bytes {data.hex()[:160]}"})
     if len(agg.samples) < 2:
         agg.samples.append({"source": src[:400], "bytes": data.hex()[:120]})
